@@ -41,10 +41,17 @@ def oracle(tier, rng, seeds):
     fl2, st2 = effects.directed_history_search(rng, 90 if tier == 'quick' else 600)
     fails = [Failure(f['what'], {'history': f['history'], 'mutate_first': f.get('mutate_first', False)}) for f in fl + fl2]
     st.update(st2)
+    import hashseed
+    fl3, st3 = hashseed.check(rng)
+    fails += [Failure(f['what'], {'hashseed_call': f['call'], 'hashseeds': f['seeds']}) for f in fl3]
+    st.update(st3)
     return fails, {'evaluations': st['history_calls'] + st2['directed_history_calls'], 'distinct_nontrivial': st['history_calls'] + st2['directed_history_calls'], 'failing': len(fails), **st,
                    'samples': [{'history': 'random API calls, e.g. lonlat_to_cell((lon,lat),r), cell_to_boundary(c, opts), compact([...])'}]}
 
 def replay(f):
+    if f.get('data', {}).get('hashseed_call'):
+        import hashseed
+        return hashseed.replay(f['data']['hashseed_call'], f['data']['hashseeds'])
     h = f.get('data', {}).get('history')
     if h and f.get('data', {}).get('mutate_first'):
         return effects.run_mutate_first(h[0][0], tuple(h[0][1]))
